@@ -114,3 +114,32 @@ Theorem C12_source_strategy_selection :
   strategy_selection (gf_body fn_NewShardedMapOf) = Some ("c.evictMostExpired", "c.evictLeastCounter", true).
 Proof. exact tie_strategy_selection. Qed.
 Print Assumptions C12_source_strategy_selection.
+
+(* the memory triggers: no limit -> never; else the figure ReadMemStats reports exceeds the limit *)
+Theorem C12_source_mem_overflow : forall limit heap sys,
+  run_mem_overflow fn_Trait_heapInUseOverflow "c.Config.HeapInUseSoftLimit" limit heap sys =
+    Some (if limit =? 0 then (false, 0%nat) else (limit <? heap, 1%nat)) /\
+  run_mem_overflow fn_Trait_sysOverflow "c.Config.SysMemSoftLimit" limit heap sys =
+    Some (if limit =? 0 then (false, 0%nat) else (limit <? sys, 1%nat)).
+Proof. exact tie_mem_overflow. Qed.
+Print Assumptions C12_source_mem_overflow.
+
+(* "only in a cleanup cycle": the only caller of Evict is invokeCleanup, which the janitor runs once per interval; the
+   other background goroutine (items counter) only reads Len *)
+Theorem C12_source_background_turns : forall interval debug stat len,
+  (run_turn fn_Trait_janitor "c.Config.DeleteExpiredJobInterval" interval debug stat 0 len =
+     Some (false, [("After", [VZ interval]); ("invokeCleanup", [])])) /\
+  (run_turn fn_Trait_reportItemsCount "c.Config.ItemsCountReportInterval" interval debug stat 0 len =
+     Some (false, ("After", [VZ interval]) :: (if debug then [("log", [VStr "cache items count"])] else [])
+                  ++ (if stat then [("stat", [VStr "cache_items"; VF (FOfZ len)])] else []))%list).
+Proof.
+  intros interval debug stat len. split;
+    [exact (proj1 (tie_janitor interval debug stat len))|exact (proj1 (tie_report_items_count interval debug stat len))].
+Qed.
+Print Assumptions C12_source_background_turns.
+
+Theorem C12_source_evict_metrics_all :
+  metric_field fn_shardedMapOf_evictMostExpired = Some "i.E" /\ metric_field fn_shardedMapOf_evictLeastCounter = Some "i.C" /\
+  metric_field fn_syncMap_evictMostExpired = Some "i.E" /\ metric_field fn_syncMap_evictLeastCounter = Some "i.C".
+Proof. exact tie_evict_metrics_all. Qed.
+Print Assumptions C12_source_evict_metrics_all.
